@@ -113,9 +113,6 @@ def _serialize_region_fits(region):
     # translate region class to FITS shape name
     shape = region_clsname.lower().replace('pixelregion', '')
 
-    if region.meta.get('include', None) == 0:
-        shape = f'!{shape}'
-
     region_map = {'circleannulus': 'annulus',
                   'ellipseannulus': 'elliptannulus',
                   'rectangle': 'rotbox'}
@@ -136,6 +133,11 @@ def _serialize_region_fits(region):
             if shape == 'ellipse':
                 value /= 2.0
             shape_params.append(value)
+
+    # the exclusion prefix is added once the shape name is final (after
+    # the class name -> FITS name mapping and the semi-axis conversion)
+    if region.meta.get('include', None) == 0:
+        shape = f'!{shape}'
 
     if not shape_params:
         shape_params = 0
